@@ -41,7 +41,11 @@ type Frame struct {
 	Txt  string            `json:"txt"`
 	Pad  int               `json:"pad,omitempty"`
 	Wait int               `json:"wait,omitempty"` // barrier: the call (index) whose return releases it
-	Cat  string            `json:"cat,omitempty"`
+	// value: bytes on the line before / after the JSON value (already part of Txt); the line is one JSON value for json.Unmarshal
+	// iff both consist of JSON white space (space, tab, CR, LF) only — the model decides that (lexLine)
+	Lead  string `json:"lead,omitempty"`
+	Trail string `json:"trail,omitempty"`
+	Cat   string `json:"cat,omitempty"`
 }
 
 type Case struct {
@@ -67,7 +71,8 @@ type Case struct {
 	Handlers []string `json:"handlers"`
 	// what the registered handlers do: "" / "fast" record, "slow" work 2 ms first, "reentrant" call ListTools on the same client and wait
 	HandlerKind string `json:"handlerKind,omitempty"`
-	Expect      int    `json:"expect,omitempty"` // burst cases: handler invocations the generator expects (stdio: awaited before the quiet window)
+	Expect      int    `json:"expect,omitempty"`   // burst cases: handler invocations the generator expects (stdio: awaited before the quiet window)
+	ExpectOK    bool   `json:"expectOk,omitempty"` // every frame of the script is a well-formed answer: every call must return its result (model-free oracle)
 	Lines       []Line `json:"lines,omitempty"`
 	End         string `json:"end,omitempty"`
 	Tail        string `json:"tail,omitempty"` // unterminated bytes before EOF (post): no reader interprets them
@@ -1101,5 +1106,7 @@ func genCases(r *rand.Rand, thorough bool) []*Case {
 	g.idCases()
 	g.decodeCases()
 	g.burstCases()
+	g.paddingCases()
+	g.hostileCases()
 	return g.cases
 }
